@@ -331,6 +331,9 @@ class Run:
         self.assumptions = []
         os.makedirs(EVID, exist_ok=True)
         os.makedirs(REPLAYS, exist_ok=True)
+        for old in os.listdir(REPLAYS):
+            if old.startswith(pid + "-"):
+                os.remove(os.path.join(REPLAYS, old))
 
     def add_tlc(self, r):
         self.states += r["distinct"]
